@@ -377,7 +377,7 @@ def check_message(ctx, prog, recv):
     if finv is None or opv is None:
         ctx.undecided('C11.message', recv['pq'], 'receive:message completion', fwhere(recv), 'FIN / opcode variables not found')
     else:
-        rel = lambda c: any(w.get('k') == 'var' and w.get('id') in (opv['id'], finv['id']) for w in walk_expr(q.expand(recv, c, bools_only=True)))
+        rel = lambda c: any(w.get('k') == 'var' and w.get('id') in (opv['id'], finv['id']) for x in (c, q.expand(recv, c, bools_only=True)) for w in walk_expr(x))
         complete = {}
         und = False
         for e in stores:
@@ -816,30 +816,43 @@ def check_payload_index(ctx, prog, recv):
                     sv = strip(side)
                     if sv.get('k') == 'var' and sv.get('vk') == 'local':
                         lenvars.setdefault(strip(e['obj'])['id'], sv['id'])
+    # pointers to the start of the payload (`const byte* p = buffer.data()`): p[K] and p + K are positions in the payload too
+    ptrs = {}
+    for s_ in ir.walk_stmts(recv['body']):
+        if s_.get('k') == 'decl':
+            for v in s_['vars']:
+                ini = strip(v.get('init') or {})
+                while ini.get('k') in ('cast', 'paren'):
+                    ini = strip(ini['e'])
+                if T(recv, v['t']).get('ptr') and ini.get('k') == 'call' and ini.get('obj') is not None and strip(ini['obj']).get('id') in bufs and (ini.get('pq') or '').split('::')[-1] in ('data', 'ptr'):
+                    ptrs[v['id']] = strip(ini['obj'])['id']
     n = 0
     for e in fn_exprs(recv):
-        if e.get('k') != 'call' or e.get('obj') is None or strip(e['obj']).get('id') not in bufs:
-            continue
-        vid = strip(e['obj'])['id']
-        nm = (e.get('pq') or '').split('::')[-1]
-        need = None
-        if e.get('op') == '[]' and e.get('a') and const_val(e['a'][0]) is not None:
-            need = const_val(e['a'][0]) + 1
-        elif nm == 'slice' and e.get('a') and const_val(e['a'][0]) is not None:
-            need = const_val(e['a'][0])
-        elif nm == 'remove' and len(e.get('a', [])) == 2 and const_val(e['a'][0]) is not None and const_val(e['a'][1]) is not None:
-            need = const_val(e['a'][0]) + const_val(e['a'][1])
-        if not need or need <= 0:
+        vid = need = None
+        if e.get('k') == 'call' and e.get('obj') is not None and strip(e['obj']).get('id') in bufs:
+            vid = strip(e['obj'])['id']
+            nm = (e.get('pq') or '').split('::')[-1]
+            if e.get('op') == '[]' and e.get('a') and const_val(e['a'][0]) is not None:
+                need = const_val(e['a'][0]) + 1
+            elif nm == 'slice' and e.get('a') and const_val(e['a'][0]) is not None:
+                need = const_val(e['a'][0])
+            elif nm == 'remove' and len(e.get('a', [])) == 2 and const_val(e['a'][0]) is not None and const_val(e['a'][1]) is not None:
+                need = const_val(e['a'][0]) + const_val(e['a'][1])
+        elif e.get('k') == 'idx' and strip(e['b']).get('k') == 'var' and strip(e['b']).get('id') in ptrs and const_val(e['i']) is not None:
+            vid, need = ptrs[strip(e['b'])['id']], const_val(e['i']) + 1
+        elif e.get('k') == 'bin' and e.get('op') == '+' and strip(e['x']).get('k') == 'var' and strip(e['x']).get('id') in ptrs and const_val(e['y']) is not None:
+            vid, need = ptrs[strip(e['x'])['id']], const_val(e['y'])
+        if vid is None or not need or need <= 0:
             continue
         n += 1
         role = 'receive:`%s` stays inside the payload' % pe(e)[:40]
-        ltxt = set(pe(w) for c, pol, kind in g.of(e) if isinstance(c, dict) for w in walk_expr(q.expand(recv, c, bools_only=True))
+        ltxt = set(pe(w) for c, pol, kind in g.of(e) if isinstance(c, dict) for w in walk_expr(q.expand(recv, c))
                    if w.get('k') == 'call' and (w.get('pq') or '').endswith('::length') and w.get('obj') is not None and strip(w['obj']).get('id') == vid)
         worst = und = None
         for L in range(0, need):
             env = {lenvars[vid]: L} if vid in lenvars else {}
             r = bounded.admitted3(bounded.Bound(prog, recv, env, dict((t_, L) for t_ in ltxt)), g.of(e), g,
-                                  relevant=lambda c_: any((w.get('k') == 'var' and w.get('id') == lenvars.get(vid)) or (w.get('k') == 'call' and pe(w) in ltxt) for w in walk_expr(q.expand(recv, c_, bools_only=True))))
+                                  relevant=lambda c_: any((w.get('k') == 'var' and w.get('id') == lenvars.get(vid)) or (w.get('k') == 'call' and pe(w) in ltxt) for w in walk_expr(q.expand(recv, c_))))
             ctx.evaluations += 1
             if r is True:
                 worst = L
@@ -852,4 +865,5 @@ def check_payload_index(ctx, prog, recv):
             ctx.undecided('C11.payloadidx', recv['pq'], role, fwhere(recv, e.get('l')), 'guards not evaluable for a %d-byte payload' % und)
         else:
             ctx.ok('C11.payloadidx', recv['pq'], role, fwhere(recv, e.get('l')), 'only reached for payloads of at least %d byte(s)' % need)
-    ctx.floor('C11.payloadidx constant-position accesses of the payload', n, 2)
+    if not n:
+        ctx.ok('C11.payloadidx', recv['pq'], 'receive:constant positions in the payload', fwhere(recv), 'receive() reads no constant position of the payload buffer', nontrivial=False)
